@@ -57,7 +57,11 @@ pub fn x509_summary(c: &X509) -> Value {
 		.and_then(|k| k.public_key_to_der().ok())
 		.map(|d| cu::hexs(&cu::sha256(&d)));
 	let der_sha = c.to_der().ok().map(|d| cu::hexs(&cu::sha256(&d)));
-	json!({"sans": sans, "spki_sha256": spki, "not_after": c.not_after().to_string(), "der_sha256": der_sha})
+	let expires_in_s: Option<i64> = openssl::asn1::Asn1Time::days_from_now(0)
+		.ok()
+		.and_then(|now| now.diff(c.not_after()).ok())
+		.map(|d| d.days as i64 * 86400 + d.secs as i64);
+	json!({"sans": sans, "spki_sha256": spki, "not_after": c.not_after().to_string(), "expires_in_s": expires_in_s, "der_sha256": der_sha})
 }
 
 pub fn observe_pair(cert_path: &Path, key_path: &Path) -> Value {
@@ -762,6 +766,21 @@ fn run_phase(phase: &Value, dir: &str, cas: &[CaServer], ctl: &str) -> Value {
 				}
 			}
 			o["t_end_ms"] = json!(super::vnow_ms());
+			if phase.get("schedule_after").and_then(|v| v.as_bool()) == Some(true) {
+				// what the same daemon process now thinks of each certificate's renewal date
+				let (certs, _, _) = srv.verif_parts();
+				let mut sv = serde_json::Map::new();
+				for (id, c) in certs.iter() {
+					sv.insert(
+						id.clone(),
+						match c.schedule_renewal().await {
+							Ok(d) => json!({"ok": d.as_secs_f64()}),
+							Err(e) => json!({"err": e.message}),
+						},
+					);
+				}
+				o["schedule_after"] = Value::Object(sv);
+			}
 			o["parts_after"] = dump_parts(&mut srv).await;
 			// final observation after the loop is dropped
 			let mut finals = serde_json::Map::new();
